@@ -67,10 +67,19 @@ def variants(text, dumped):
     def fresh():
         return etree.fromstring(text.encode("utf-8"), parser)
 
-    # 1. attribute order
+    def in_raw(el):
+        # raw wildcard content (annotation subtrees) is kept verbatim by the bindings: whitespace there is content
+        while el is not None:
+            if isinstance(el.tag, str) and etree.QName(el).localname == "annotation":
+                return True
+            el = el.getparent()
+        return False
+
+    # 1. attribute order (raw wildcard content under <annotation> is kept as text by the bindings and compared as
+    #    text by the dump, so it is left alone: the same convention as for the whitespace rewriters below)
     root = fresh()
     for el in root.iter():
-        if isinstance(el.tag, str) and len(el.attrib) > 1:
+        if isinstance(el.tag, str) and len(el.attrib) > 1 and not in_raw(el):
             items = list(el.attrib.items())
             rng.shuffle(items)
             for k in list(el.attrib):
